@@ -7,8 +7,11 @@
    per-pipe send_queue are bounded FIFOs.  The surveyor has no timer of its own:
    the deadline acts through the expiry of the user's receive aio, which
    surv0_ctx_recv clamps to ctx->expire; PTick is the expire thread running the
-   aio's cancel function (surv0_ctx_cancel with NNG_ETIMEDOUT).  User aios are
-   taken to have no (i.e. an infinite or default) timeout of their own.
+   aio's cancel function (surv0_ctx_cancel with NNG_ETIMEDOUT) for the receives whose
+   expiry was clamped to the survey deadline.  A receive whose own (finite, shorter)
+   timeout ends first gets the same cancel function with NNG_ETIMEDOUT from the link
+   layer as PCancel a 5 (ocaml/proto_link.ml, `aiotmo`): it retires the survey as any
+   cancel does.
 
    nbfix = the repair of surv0_ctx_recv's clamp test (`timeout < 1` -> `timeout < 0`):
    false models the pinned source, where a NONBLOCK receive (timeout 0) is
